@@ -394,8 +394,9 @@ int main()
     auto hdr = vp::tokens(line);
     bool fake;
     // an optional third token (sat=0|sat=1) tells the *model* which timed arithmetic the tree under test has
-    const bool hdrOk = (hdr.size() == 2 || (hdr.size() == 3 && (hdr[2] == "sat=0" || hdr[2] == "sat=1"))) &&
-                       hdr[0] == "ptc";
+    bool hdrOk = hdr.size() >= 2 && hdr[0] == "ptc";
+    for (size_t i = 2; hdrOk && i < hdr.size(); ++i)   // sat=0|1, neg=0|1: which variants the tree under test has
+        hdrOk = hdr[i] == "sat=0" || hdr[i] == "sat=1" || hdr[i] == "neg=0" || hdr[i] == "neg=1";
     if (hdrOk && hdr[1] == "clock=fake")
         fake = true;
     else if (hdrOk && hdr[1] == "clock=real")
@@ -766,6 +767,12 @@ int main()
             if (!cb) { std::cout << "none\n"; continue; }
             std::vector<const ob::State *> none;
             cb(nullptr, none, ob::Cost(*vp::parseBits(t[1])));
+            std::cout << "ok\n";
+        }
+        else if (op == "cbclear" && t.size() == 1)
+        {
+            // the user replaces the problem definition's callback while a cost-convergence condition is alive
+            pdef->setIntermediateSolutionCallback(ob::ReportIntermediateSolutionFn());
             std::cout << "ok\n";
         }
         else if (op == "soln" && t.size() == 3 && parseBit(t[1]) && vp::parseBits(t[2]))
